@@ -225,3 +225,10 @@ def r5(c):
     c.ob('execute_request/payload', okp and q.is_name(ex, hr.args[0], 'request'), 'the reply payload is handed to the outstanding request', repr(s), hr.loc())
     xs = [x for x in q.exits(ex) if x['kind'] == 'call' and x['cs'] is hr]
     c.ob('execute_request/result', len(xs) == 1, "the transaction's result is handle_response's result", '', hr.loc())
+
+
+@rule('C04', 'R04.6', 'turning an accepted reply into the caller\'s value cannot panic: panic-site inventory of the reply parsers, iterators and promises (C07/R07.1 restricted)')
+def r6(c):
+    from rules import c07
+    pre = ('rodbus::types::', '<rodbus::types::', 'rodbus::client::requests::', '<rodbus::client::requests::', 'rodbus::client::message::', '<rodbus::client::message::')
+    c07.inventory(c, only=lambda f: f.startswith(pre), floor=8)
